@@ -50,9 +50,9 @@ def coqc(path, timeout=600):
 
 def hygiene():
     """no Admitted / admit / Axiom / Parameter / ... anywhere in the development"""
-    rc, out = sh(["grep", "-rnE", r"\b(Admitted|admit|Axiom|Parameter|Conjecture|Hypothesis)\b|Unset Guard|bypass_check|Admit Obligations|type-in-type",
+    rc, out = sh(["grep", "-rnE", r"\b(Admitted|admit|Axiom|Axioms|Parameter|Parameters|Conjecture)\b|Unset Guard|bypass_check|Admit Obligations|type-in-type|Unset Universe|Unset Positivity",
                   "--include=*.v", "theories"], cwd=COQ)
-    bad = [l for l in out.splitlines() if l.strip() and not re.search(r"\(\*.*\b(Admitted|admit|Axiom|Parameter|Hypothesis)\b.*\*\)", l)]
+    bad = [l for l in out.splitlines() if l.strip() and not re.search(r"\(\*.*\b(Admitted|admit|Axiom|Parameter)\b.*\*\)", l)]
     return bad
 
 
